@@ -1,9 +1,9 @@
 package gbnprop
 
 import (
-	"os"
 	"encoding/json"
 	"fmt"
+	"os"
 	"strings"
 	"testing"
 	"time"
